@@ -442,6 +442,13 @@ func runIdxCase(o *Oracle, c *IdxCase, rep *Report, fl idxFlags) {
 				break
 			}
 		}
+		if fl.useSpec && len(rows) <= fl.specMaxRows && prod <= 50000 && st.hasNul {
+			// column names containing NUL: reported separately (known finding D15), never mixed with other mismatches
+			rep.Count("nul-column-cases")
+			if s := o.Ask("idx qs " + toks); s != got {
+				viol("input", "C01:nul-in-column-name-collision", fmt.Sprintf("with a NUL byte in a column name, query %s counts rows of a different (column,value) pair", toks), s, got)
+			}
+		}
 		if fl.useSpec && len(rows) <= fl.specMaxRows && prod <= 50000 && !st.hasNul {
 			rep.Count("spec-compared")
 			if s := o.Ask("idx qs " + toks); s != got {
